@@ -1,9 +1,13 @@
 #!/bin/bash
-# cmp.sh <family> <stage> <seed> <n>: run impl and model, show first disagreements
+# cmp.sh <family> <stage> <seed> <n> [show]: run impl and model, show first disagreements
 cd /verif/build
 ./harness gen $1 $3 $4 > c.in
 ./harness run $2 < c.in > c.impl
 ./driver $2 < c.in > c.model
-paste c.in c.impl c.model | awk -F'\t' '$2!=$3' > c.diff
-echo "cases=$(wc -l < c.in) diffs=$(wc -l < c.diff) ok=$(grep -c '^OK' c.impl) err=$(grep -c '^ERR' c.impl)"
-head -${5:-5} c.diff | while IFS=$'\t' read a b c; do echo "IN:    $(echo $a | xxd -r -p | tr '\n' '~')"; echo "IMPL:  ${b:0:600}"; echo "MODEL: ${c:0:600}"; done
+paste c.in c.impl c.model | awk -F'\t' '{ if ($(NF-1)!=$NF) print }' > c.diff
+echo "cases=$(wc -l < c.in) diffs=$(wc -l < c.diff) ok=$(grep -c '^OK' c.impl) err=$(grep -c '^ERR' c.impl) other=$(grep -vc '^OK\|^ERR' c.impl)"
+dec() { if [[ "$1" == OK\ * && "$2" == compile ]]; then echo "OK $(echo ${1#OK } | xxd -r -p | tr '\n' '~')"; else echo "${1:0:400}"; fi; }
+head -${5:-5} c.diff | while IFS= read -r line; do
+  nf=$(echo "$line" | awk -F'\t' '{print NF}')
+  a=$(echo "$line" | cut -f1); b=$(echo "$line" | cut -f$((nf-1))); c=$(echo "$line" | cut -f$nf)
+  echo "IN:    $(echo $a | xxd -r -p | tr '\n' '~')   [$a]"; echo "IMPL:  $(dec "$b" $2)"; echo "MODEL: $(dec "$c" $2)"; done
